@@ -243,6 +243,23 @@ def gen_project_inputs(rng, alphabet: List[str]) -> Dict[str, Any]:
 def gen_srcextras(rng, alphabet: List[str]) -> Dict[str, Any]:
     """compile-wide extras (perform_compile(extras=...) / --extra): a source-tree repository in front of an index, the two
     offering disjoint projects, requirements crossing in both directions, requirements under `extra == ..` markers"""
+    if rng.random() < 0.3:
+        # structured: an index project asks a source-tree project for extra f; under f the source project bounds a project
+        # that is required elsewhere too; the compile-wide extra is another one (it must be ADDED to f, not replace it)
+        app, eng, codec, tool = rng.sample(NAMES, 4)
+        sp = lambda n: rng.choice(SPELL[n])
+        f, t = alphabet[0], alphabet[1]
+        bound = rng.choice(["<2.0", "<=1.1", "==1.0"])
+        src = {eng: [(sp(eng), "2.0", [sp(codec) + bound + ' ; extra == "%s"' % f, sp(tool) + ' ; extra == "%s"' % t], True, False)]}
+        idx = {app: [(sp(app), "1.0", [sp(eng) + "[%s]" % f, sp(codec)], True, False)],
+               codec: [(sp(codec), v, [], True, False) for v in ("1.0", "2.0", "2.1")],
+               tool: [(sp(tool), "1.0", [], True, False)]}
+        ins = [sp(app)] + ([sp(codec)] if rng.random() < 0.5 else [])
+        rng.shuffle(ins)
+        return {"mode": "srcextras", "universe": {}, "stack": [{"universe": src, "allow_pre": True, "source": True},
+                                                                {"universe": idx, "allow_pre": False, "source": False}],
+                "inputs": [("in0.txt", ins)], "constraints": None, "remove_constraints": False, "allow_pre": False,
+                "max_downgrade": None, "only_binary": None, "extras": rng.choice([[t], [t], [f, t], None])}
     base = gen_case(rng, alphabet, "extras")
     keys = list(base["universe"])
     rng.shuffle(keys)
